@@ -584,6 +584,8 @@ type c11Scenario struct {
 	Config  string            `json:"config"`
 	Kind    string            `json:"kind"`
 	Symlink string            `json:"symlink,omitempty"` // rules/<Symlink> -> 0.yml
+	// ci mode: BaseFiles are committed on main, Files on a branch; pint ci compares them (rule/dependency runs for removed rules)
+	BaseFiles map[string]string `json:"base_files,omitempty"`
 }
 
 func c11RuleText(r *rand.Rand, i int) string {
@@ -591,7 +593,8 @@ func c11RuleText(r *rand.Rand, i int) string {
 	name := fmt.Sprintf("r%d", i)
 	expr := pick(r, []string{"up == 0", "up{job=\"a\"} == 0", "sum(foo) by(job) > 0", "rate(errors_total[5m]) > 0", "foo / bar", "sum(" /* syntax */, "up",
 		"foo{job=~\"bar\"} > 0" /* promql/regexp */, "sum(foo) without(job) > 0", "sum(errors) / sum(requests) > 0.1" /* fragile */, "foo{job=~\"a\", instance=~\"b\"} == 1",
-		"absent(foo{job=\"x\"})", "count(foo) > 0 or count(bar) > 0", "sum(rate(foo[1m])) by(instance) > 0"})
+		"absent(foo{job=\"x\"})", "count(foo) > 0 or count(bar) > 0", "sum(rate(foo[1m])) by(instance) > 0",
+		"foo{job=~\"service_.*_prod\"} > 0" /* smelly regexp */, "sum(foo{instance=~\"a.*b.*c\", job=~\".+_prod\"}) > 1", "foo{job=~\"prod.*|staging.*\"} == 0"})
 	if r.Intn(2) == 0 {
 		fmt.Fprintf(&b, "  - alert: %s\n    expr: %s\n", name, expr)
 		if r.Intn(3) == 0 {
@@ -689,8 +692,98 @@ func c11GenScenario(r *rand.Rand) c11Scenario {
 			cfg.WriteString(blk2)
 		}
 	}
+	cfg.WriteString(c11CheckSettings(r))
 	sc.Config = cfg.String()
 	return sc
+}
+
+// c11CheckSettings: `check "<name>" { ... }` blocks with non-default values for the checks that have settings. The decoded
+// settings objects are shared by all workers through the context, so whatever a check does with them is schedule relevant.
+func c11CheckSettings(r *rand.Rand) string {
+	var b strings.Builder
+	if r.Intn(2) == 0 {
+		fmt.Fprintf(&b, "check \"promql/regexp\" {\n  smelly = %v\n}\n", r.Intn(3) == 0)
+	}
+	if r.Intn(3) == 0 {
+		b.WriteString("check \"promql/series\" {\n  lookbackRange = \"3d\"\n  lookbackStep = \"10m\"\n  ignoreMetrics = [\"foo.*\", \"bar\"]\n  ignoreLabelsValue = { \"up\" = [\"instance\"] }\n  fallbackTimeout = \"1m\"\n}\n")
+	}
+	return b.String()
+}
+
+// c11BulkScenario: many rules cycling through every expression / field shape the offline checks react to, under a config
+// that gives every check with settings a non-default settings block and every configurable check a rule block: each
+// check runs many times concurrently on similar inputs (what shared mutable state needs in order to show).
+func c11BulkScenario(r *rand.Rand, nrules int, smelly bool) c11Scenario {
+	exprs := []string{"foo{job=~\"service_.*_prod\"} > 0", "sum(foo{instance=~\"a.*b.*c\"}) > 1", "up == 0", "foo{job=~\"bar\"} > 0", "sum(errors) / sum(requests) > 0.1",
+		"sum(rate(foo[1m])) without(job) > 0", "foo{job=~\".+_prod\", cluster=~\"eu.*west.*\"} == 0", "up", "absent(foo{job=\"x\"})", "foo / bar",
+		"count(foo{job=~\"a.*b\"}) > 0 or count(bar{job=~\"c.*d\"}) > 0"}
+	var b strings.Builder
+	b.WriteString("groups:\n- name: bulk\n  rules:\n")
+	for i := 0; i < nrules; i++ {
+		e := exprs[i%len(exprs)]
+		if i%4 == 3 {
+			fmt.Fprintf(&b, "  - record: job:bulk%d:sum\n    expr: %s\n", i, strings.TrimSuffix(strings.TrimSuffix(strings.TrimSuffix(e, " > 0"), " == 0"), " > 1"))
+			continue
+		}
+		fmt.Fprintf(&b, "  - alert: Bulk%d\n    expr: %s\n", i, e)
+		if i%3 == 0 {
+			fmt.Fprintf(&b, "    for: %s\n", pick(r, []string{"1m", "0s", "5m"}))
+		}
+		if i%5 == 0 {
+			b.WriteString("    labels:\n      team: a\n")
+		}
+		if i%2 == 0 {
+			b.WriteString("    annotations:\n      summary: \"{{ $labels.job }} on {{ $labels.missing }}\"\n")
+		}
+	}
+	cfg := fmt.Sprintf("check \"promql/regexp\" {\n  smelly = %v\n}\n", smelly) +
+		"check \"promql/series\" {\n  lookbackRange = \"3d\"\n  lookbackStep = \"10m\"\n  ignoreMetrics = [\"foo.*\"]\n  fallbackTimeout = \"1m\"\n}\n" +
+		"rule {\n  label \"team\" {\n    required = true\n    severity = \"warning\"\n  }\n}\n" +
+		"rule {\n  match {\n    kind = \"alerting\"\n  }\n  annotation \"summary\" {\n    required = true\n  }\n  for {\n    min = \"2m\"\n  }\n}\n" +
+		"rule {\n  aggregate \".+\" {\n    keep = [\"job\"]\n  }\n  reject \".*prod.*\" {\n    label_values = true\n  }\n  name \"Bulk.*|job:.*\" {\n  }\n}\n"
+	return c11Scenario{Files: map[string]string{"rules/0.yml": b.String()}, Config: cfg, Kind: fmt.Sprintf("bulk(smelly=%v)", smelly)}
+}
+
+// c11CIScenario: a git history for `pint ci`: main has recording rules other rules depend on, the branch removes some of
+// them (rule/dependency runs once per removed rule, each reading the list of ALL entries the jobs share), optionally an
+// invalid rule ahead of the valid ones and edits of a few alerts.
+func c11CIScenario(r *rand.Rand, nalerts int) c11Scenario {
+	nrec := 3 + r.Intn(4)
+	recs := make([]string, nrec)
+	for i := range recs {
+		recs[i] = fmt.Sprintf("job:m%d:rate5m", i)
+	}
+	recFile := func(keep func(i int) bool) string {
+		var b strings.Builder
+		b.WriteString("groups:\n- name: recording\n  rules:\n  - record: job:up:sum\n    expr: sum(up) by(job)\n")
+		for i, n := range recs {
+			if keep(i) {
+				fmt.Fprintf(&b, "  - record: %s\n    expr: sum(rate(m%d_total[5m])) by(job)\n", n, i)
+			}
+		}
+		return b.String()
+	}
+	invalidFirst := r.Intn(2) == 0
+	alerts := func(edit bool) string {
+		var b strings.Builder
+		b.WriteString("groups:\n- name: alerts\n  rules:\n")
+		if invalidFirst {
+			b.WriteString("  - alert: broken\n    for: 5m\n")
+		}
+		for i := 0; i < nalerts; i++ {
+			thr := "0.1"
+			if edit && i%7 == 0 {
+				thr = "0.2"
+			}
+			fmt.Fprintf(&b, "  - alert: Alert%d\n    expr: %s{idx=\"%d\"} / %s{idx=\"%d\"} > %s\n", i, recs[i%nrec], i, recs[(i+1)%nrec], i, thr)
+		}
+		return b.String()
+	}
+	nrem := 2 + r.Intn(nrec-1)
+	cfg := "ci {\n  baseBranch = \"main\"\n}\nparser {\n  include = [\"rules/.+.yml\"]\n  relaxed = [\".*\"]\n}\n" + c11CheckSettings(r)
+	return c11Scenario{Kind: fmt.Sprintf("ci(removed=%d,invalid-first=%v)", nrem, invalidFirst), Config: cfg,
+		BaseFiles: map[string]string{"rules/recording.yml": recFile(func(int) bool { return true }), "rules/alerts.yml": alerts(false)},
+		Files:     map[string]string{"rules/recording.yml": recFile(func(i int) bool { return i >= nrem }), "rules/alerts.yml": alerts(r.Intn(2) == 0)}}
 }
 
 // the design-session witness: two label blocks differing only in value/comment, many rules without the label
@@ -817,6 +910,27 @@ func c11FilterStderr(s string) string {
 
 func c11WriteScenario(dir string, sc c11Scenario) {
 	os.RemoveAll(dir)
+	if sc.BaseFiles != nil {
+		for p, c := range sc.BaseFiles {
+			writeFile(filepath.Join(dir, p), c)
+		}
+		writeFile(filepath.Join(dir, ".pint.hcl"), sc.Config)
+		git(dir, "init", "-q", "--initial-branch=main", ".")
+		git(dir, "add", ".")
+		git(dir, "commit", "-q", "-m", "base")
+		git(dir, "checkout", "-q", "-b", "feature")
+		for p := range sc.BaseFiles {
+			if _, ok := sc.Files[p]; !ok {
+				os.Remove(filepath.Join(dir, p))
+			}
+		}
+		for p, c := range sc.Files {
+			writeFile(filepath.Join(dir, p), c)
+		}
+		git(dir, "add", "-A", ".")
+		git(dir, "commit", "-q", "-m", "change")
+		return
+	}
 	for p, c := range sc.Files {
 		writeFile(filepath.Join(dir, p), c)
 	}
@@ -997,15 +1111,117 @@ func runC11(args []string) int {
 	}
 
 	// ---- B/C. real pipeline --------------------------------------------------------------------
-	scens := []c11Scenario{c11TieScenario(6), c11TieScenario(40), c11PosTieScenario(1), c11PosTieScenario(12)}
+	bulkN, ciN := 66, 40
+	if race > 0 { // thorough: big enough for lost updates to become visible in the output, not only to the race detector
+		bulkN, ciN = 330, 1500
+	}
+	scens := []c11Scenario{c11TieScenario(6), c11TieScenario(40), c11PosTieScenario(1), c11PosTieScenario(12),
+		c11BulkScenario(r, bulkN, false), c11BulkScenario(r, bulkN, true), c11CIScenario(r, ciN)}
 	for len(scens) < nscen {
+		if len(scens)%6 == 5 {
+			scens = append(scens, c11CIScenario(r, 10+r.Intn(40)))
+			continue
+		}
 		scens = append(scens, c11GenScenario(r))
+	}
+	// scenarios in which every check runs many times concurrently: always through the binary, more repetitions, race build
+	heavy := func(sc c11Scenario) bool {
+		return sc.BaseFiles != nil || strings.HasPrefix(sc.Kind, "bulk") || strings.HasSuffix(sc.Kind, "witness")
+	}
+	raceBin := os.Getenv("PINT_RACE_BIN")
+	type binOut struct {
+		Workers int    `json:"workers"`
+		Exit    int    `json:"exit"`
+		JSON    string `json:"json"`
+		Stderr  string `json:"stderr"`
+	}
+	runBinary := func(si int, dir string, sc c11Scenario, inProcessJSON *string) {
+		args := func(w int, jp string) []string {
+			if sc.BaseFiles != nil {
+				return []string{"--no-color", "--offline", "-c", ".pint.hcl", "--workers", fmt.Sprint(w), "ci", "--json", jp}
+			}
+			return []string{"--no-color", "-c", ".pint.hcl", "--workers", fmt.Sprint(w), "lint", "--json", jp, "rules"}
+		}
+		var ref *binOut
+		runs := []int{1, 4, 16, 16, 64}
+		if heavy(sc) {
+			runs = []int{1, 2, 4, 16, 64, 16, 4, 2, 64, 16}
+			if race > 0 {
+				runs = append(runs, 2, 4, 8, 16, 32, 64, 16, 4, 2, 16, 64, 8, 4, 2, 16)
+			}
+		}
+		for _, w := range runs {
+			jp := filepath.Join(dir, fmt.Sprintf("out_%d.json", w))
+			os.Remove(jp)
+			rc, _, se := runPint(dir, args(w, jp)...)
+			jb, _ := os.ReadFile(jp)
+			bo := binOut{Workers: w, Exit: rc, JSON: string(jb), Stderr: c11FilterStderr(se)}
+			rep.hist("binary-run")
+			if sc.BaseFiles != nil {
+				rep.hist("binary-run(ci)")
+			}
+			if rc < 0 || rc > 1 {
+				rep.fail(fmt.Sprintf("scen%d-w%d", si, w), fmt.Sprintf("pint crashed or timed out with --workers %d (exit %d)", w, rc), map[string]any{"scenario": sc, "stderr": se})
+				break
+			}
+			if ref == nil {
+				ref = &bo
+				// the in-process replica of the pipeline must agree with the binary (validates stream recording)
+				if inProcessJSON != nil && strings.TrimSpace(bo.JSON) != strings.TrimSpace(*inProcessJSON) {
+					rep.Notes = append(rep.Notes, fmt.Sprintf("scenario %d: in-process JSON differs from the binary's --workers 1 JSON", si))
+					rep.hist("real:inprocess!=binary")
+				}
+				continue
+			}
+			if bo.Exit != ref.Exit || bo.JSON != ref.JSON || bo.Stderr != ref.Stderr {
+				rep.fail(fmt.Sprintf("scen%d-w%d", si, w), fmt.Sprintf("pint output differs between --workers 1 and --workers %d", w),
+					map[string]any{"scenario": sc, "run_a": ref, "run_b": bo})
+				break
+			}
+		}
+		// data races: a -race build of the same tree; any report of the detector is a failure with the scenario as replay
+		if raceBin == "" || !(heavy(sc) || race > 0) {
+			return
+		}
+		ws, procs := []int{4, 16}, []string{""}
+		if race > 0 {
+			ws, procs = []int{1, 2, 4, 16, 64}, []string{"1", "4", "16"}
+		}
+		for _, w := range ws {
+			for _, pr := range procs {
+				env := append([]string{"NO_COLOR=1", "GITHUB_ACTION=", "GITHUB_BASE_REF=", "GITHUB_EVENT_NAME=", "GITHUB_REF=", "GORACE=halt_on_error=0"}, gitEnv...)
+				if pr != "" {
+					env = append(env, "GOMAXPROCS="+pr)
+				}
+				rc, _, se := runCmd(dir, 0+300e9, env, raceBin, args(w, filepath.Join(dir, "race.json"))...)
+				rep.hist("race-run")
+				if strings.Contains(se, "DATA RACE") || rc == 66 {
+					k := strings.Index(se, "WARNING: DATA RACE")
+					if k < 0 {
+						k = 0
+					}
+					end := k + 2500
+					if end > len(se) {
+						end = len(se)
+					}
+					rep.fail(fmt.Sprintf("scen%d-race", si), fmt.Sprintf("data race reported by the race detector with --workers %d GOMAXPROCS=%q", w, pr),
+						map[string]any{"scenario": sc, "race_report": se[k:end]})
+					return
+				}
+			}
+		}
 	}
 	base := filepath.Join(cwd, "scen")
 	for si, sc := range scens {
 		dir := filepath.Join(base, fmt.Sprintf("s%03d", si))
 		c11WriteScenario(dir, sc)
 		must(os.Chdir(dir))
+		if sc.BaseFiles != nil { // pint ci: no in-process replica of the git finder; binary and race runs only
+			rep.count(fmt.Sprintf("%+v", sc), true)
+			rep.hist("kind=ci(binary only)")
+			runBinary(si, dir, sc, nil)
+			continue
+		}
 		jobs, err := c11Jobs(dir)
 		if err != nil {
 			rep.hist("real:pipeline-error")
@@ -1022,7 +1238,7 @@ func runC11(args []string) int {
 			}
 			jidx = append(jidx, ix)
 		}
-		if len(stream) > 60 && sc.Kind != "tie-witness" {
+		if len(stream) > 60 && !heavy(sc) {
 			rep.hist("real:stream-too-long-skipped")
 			continue
 		}
@@ -1081,53 +1297,8 @@ func runC11(args []string) int {
 			rep.hist(fmt.Sprintf("real:H1=%v,H2=%v", h1, h2))
 		}
 		// C. the binary across worker counts
-		if si < nbin {
-			type binOut struct {
-				Workers int    `json:"workers"`
-				Exit    int    `json:"exit"`
-				JSON    string `json:"json"`
-				Stderr  string `json:"stderr"`
-			}
-			var ref *binOut
-			runs := []int{1, 4, 16, 16, 64}
-			for _, w := range runs {
-				jp := filepath.Join(dir, fmt.Sprintf("out_%d.json", w))
-				os.Remove(jp)
-				rc, _, se := runPint(dir, "--no-color", "-c", ".pint.hcl", "--workers", fmt.Sprint(w), "lint", "--json", jp, "rules")
-				jb, _ := os.ReadFile(jp)
-				bo := binOut{Workers: w, Exit: rc, JSON: string(jb), Stderr: c11FilterStderr(se)}
-				rep.hist("binary-run")
-				if rc < 0 || rc > 1 {
-					rep.fail(fmt.Sprintf("scen%d-w%d", si, w), fmt.Sprintf("pint crashed or timed out with --workers %d (exit %d)", w, rc), map[string]any{"scenario": sc, "stderr": se})
-					break
-				}
-				if ref == nil {
-					ref = &bo
-					// the in-process replica of the pipeline must agree with the binary (validates stream recording)
-					if strings.TrimSpace(bo.JSON) != strings.TrimSpace(firstOut.JSONText) {
-						rep.Notes = append(rep.Notes, fmt.Sprintf("scenario %d: in-process JSON differs from the binary's --workers 1 JSON", si))
-						rep.hist("real:inprocess!=binary")
-					}
-					continue
-				}
-				if bo.Exit != ref.Exit || bo.JSON != ref.JSON || bo.Stderr != ref.Stderr {
-					what := fmt.Sprintf("pint output differs between --workers 1 and --workers %d", w)
-					c := map[string]any{"scenario": sc, "run_a": ref, "run_b": bo}
-					rep.fail(fmt.Sprintf("scen%d-w%d", si, w), what, c)
-					break
-				}
-			}
-			if race > 0 && os.Getenv("PINT_RACE_BIN") != "" {
-				for _, w := range []int{1, 2, 4, 16, 64} {
-					for _, procs := range []string{"1", "4", "16"} {
-						rc, _, se := runCmd(dir, 0+120e9, []string{"NO_COLOR=1", "GOMAXPROCS=" + procs}, os.Getenv("PINT_RACE_BIN"), "--no-color", "-c", ".pint.hcl", "--workers", fmt.Sprint(w), "lint", "rules")
-						rep.hist("race-run")
-						if strings.Contains(se, "DATA RACE") || rc == 66 {
-							rep.fail(fmt.Sprintf("scen%d-race", si), fmt.Sprintf("data race reported with --workers %d GOMAXPROCS=%s", w, procs), map[string]any{"scenario": sc, "stderr": se})
-						}
-					}
-				}
-			}
+		if si < nbin || heavy(sc) {
+			runBinary(si, dir, sc, &firstOut.JSONText)
 		}
 	}
 	must(os.Chdir(cwd))
